@@ -135,7 +135,7 @@ class C08(F.Check):
             xs = [("x", T.BV(w1)), ("y", T.BV(w2))]
             clo, chi = F.ct_range(cr)
             plo, phi = F.ct_range(pr)
-            signed = F.ct_signed(cr)
+            signed = F.ct_signed(pr)      # the raw operator works in the PROMOTED type: uint8/uint16 promote to (signed) int
             pw = F.CTYPES[pr][1]
 
             def scaled(x, y, r1=r1, r2=r2, k1=k1, k2=k2, clo=clo, chi=chi):
@@ -174,7 +174,7 @@ class C08(F.Check):
                                 note="result (in the result's own unit) equals exact x*k1 +/- y*k2; traps exactly when the raw "
                                      "operator on the scaled values would (signed overflow); unsigned wraps like the raw operator"))
             if "mod" not in dropped:
-                def fn(K, x, y, names=names, scaled=scaled, signed=signed, r1=r1, r2=r2, k1=k1, k2=k2, pw=pw, crw=F.CTYPES[cr][1]):
+                def fn(K, x, y, names=names, scaled=scaled, signed=F.ct_signed(cr), r1=r1, r2=r2, k1=k1, k2=k2, pw=pw, crw=F.CTYPES[cr][1]):
                     a, b, pre = scaled(x, y)
                     e = K[names["mod"]](x, y)
                     ext = (T.sext if signed else T.zext)
